@@ -383,4 +383,598 @@ theorem replay_snoc {eqv : ObjEq} {es : List LinEv} {T T' : List Obj} {e : LinEv
   rw [hr]; simp
 end Spec
 
+/-! ### every step of every thread preserves the invariant -/
+
+theorem logs_cons {eqv : ObjEq} {tbl : List Obj} {done : List (Op × Res)} {op : Op} {res : Res}
+    (hlg : ∀ op res, (op, res) ∈ done → ResOK eqv tbl op res) (h : ResOK eqv tbl op res) :
+    ∀ op' res', (op', res') ∈ (op, res) :: done → ResOK eqv tbl op' res' := by
+  intro op' res' hm
+  simp only [List.mem_cons] at hm
+  rcases hm with e | hm
+  · cases e; exact h
+  · exact hlg op' res' hm
+
+theorem inv_dispatch {eqv : ObjEq} {s : Sys} (h : Inv eqv s) (t : Nat) (hidle : (s.thr t).pc = .idle) :
+    Inv eqv (dispatch s t (s.thr t)) := by
+  have hpc := h.pcs t
+  have hlk := h.lockD t
+  have hlg := h.logs t
+  unfold dispatch
+  split
+  · exact h
+  · split
+    · exact Inv.local h t _ hlk (by simp [PcInv]) hlg
+    · exact Inv.local h t _ hlk (by simp [PcInv]) hlg
+    · exact Inv.local h t _ hlk (by simp [PcInv]) hlg
+    · exact Inv.local h t _ hlk (by simp [PcInv]) hlg
+    · -- lockExt
+      split
+      · rename_i hd
+        refine Inv.local h t _ ?_ (by simp [hidle, PcInv]) ?_
+        · simp only; constructor
+          · intro _; exact hlk.1 hd
+          · intro _; omega
+        · intro op res hm
+          simp only [List.mem_cons] at hm
+          rcases hm with e | hm
+          · cases e; simp [ResOK]
+          · exact hlg op res hm
+      · split
+        · rename_i hd hmx
+          refine Inv.update h t _ s.mem s.count (some t) s.tbl s.lin
+            (Or.inr ⟨Or.inl hmx, Or.inr rfl, [], (List.append_nil _).symm⟩)
+            h.blocks h.nonempty h.cap h.len h.cells h.uniq (by simp) (by simp [hidle, PcInv]) ?_ h.lin
+          intro op res hm
+          simp only [List.mem_cons] at hm
+          rcases hm with e | hm
+          · cases e; simp [ResOK]
+          · exact hlg op res hm
+        · exact h
+    · -- unlockExt
+      split
+      · refine Inv.local h t _ hlk (by simp [hidle, PcInv]) ?_
+        intro op res hm
+        simp only [List.mem_cons] at hm
+        rcases hm with e | hm
+        · cases e; simp [ResOK]
+        · exact hlg op res hm
+      · rename_i hd
+        have hmt : s.mutex = some t := hlk.1 (by omega)
+        refine Inv.update h t _ s.mem s.count _ s.tbl s.lin
+          (Or.inr ⟨Or.inr hmt, ?_, [], (List.append_nil _).symm⟩)
+          h.blocks h.nonempty h.cap h.len h.cells h.uniq ?_ (by simp [hidle, PcInv]) ?_ h.lin
+        · split
+          · exact Or.inl rfl
+          · exact Or.inr hmt
+        · simp only
+          split
+          · rename_i h1; simp [h1]
+          · constructor
+            · intro _; exact hmt
+            · intro _; omega
+        · intro op res hm
+          simp only [List.mem_cons] at hm
+          rcases hm with e | hm
+          · cases e; simp [ResOK]
+          · exact hlg op res hm
+theorem tbl_cell {eqv : ObjEq} {s : Sys} (h : Inv eqv s) {i : Nat} (hi : i < s.count) :
+    ∃ o, s.tbl[i]? = some o ∧ cellAt s.mem i = some (Cell.full o) := by
+  obtain ⟨o, ho⟩ := getElem?_of_lt (l := s.tbl) (i := i) (by rw [h.len]; exact hi)
+  exact ⟨o, ho, h.cells i o ho⟩
+
+theorem inv_step {eqv : ObjEq} {s : Sys} (h : Inv eqv s) (t : Nat) : Inv eqv (step eqv s t) := by
+  have hpc := h.pcs t
+  have hlk := h.lockD t
+  have hlg := h.logs t
+  unfold step
+  dsimp only
+  split
+  case h_1 heq => exact inv_dispatch h t heq
+  case h_2 heq => rw [heq] at hpc; exact hpc.elim
+  case h_3 r heq =>
+    -- wLock
+    split
+    · rename_i hd
+      refine Inv.local h t _ ?_ (by simp only [PcInv]; exact hlk.1 hd) hlg
+      simp only; constructor
+      · intro _; exact hlk.1 hd
+      · intro _; omega
+    · split
+      · rename_i hd hmx
+        exact Inv.update h t _ s.mem s.count (some t) s.tbl s.lin
+          (Or.inr ⟨Or.inl hmx, Or.inr rfl, [], (List.append_nil _).symm⟩)
+          h.blocks h.nonempty h.cap h.len h.cells h.uniq (by simp) (by simp [PcInv]) hlg h.lin
+      · exact h
+  case h_4 r heq =>
+    -- wLoad
+    rw [heq] at hpc; simp only [PcInv] at hpc
+    refine Inv.local h t _ hlk ?_ hlg
+    unfold PcInv
+    exact ⟨hpc, rfl, Nat.zero_le _, Or.inl ⟨rfl, rfl, rfl⟩, by simp⟩
+  case h_10 heq =>
+    -- cLoad
+    refine Inv.local h t _ hlk (by simp [PcInv]) (logs_cons hlg ?_)
+    simp only [ResOK]; rw [h.len]; exact Nat.le_refl _
+  case h_11 i heq =>
+    exact Inv.local h t _ hlk (by simp [PcInv]) hlg
+  case h_12 i n heq =>
+    -- rRead
+    rw [heq] at hpc; simp only [PcInv] at hpc
+    split
+    · rename_i hin
+      obtain ⟨o, ho, hc⟩ := tbl_cell h (i := i.toNat) (by omega)
+      rw [hc]; dsimp only
+      refine Inv.local h t _ hlk (by simp [PcInv]) (logs_cons hlg ?_)
+      simp only [ResOK, Cell.keyStr_full]
+      refine ⟨by rw [h.len]; exact hpc, ?_⟩
+      simp only [Spec.atSlot, hin.1, ↓reduceIte, List.getElem?_take, hin.2, ho]
+      split <;> simp_all
+    · rename_i hin
+      refine Inv.local h t _ hlk (by simp [PcInv]) (logs_cons hlg ?_)
+      simp only [ResOK]
+      refine ⟨by rw [h.len]; exact hpc, ?_⟩
+      simp only [Spec.atSlot]
+      split
+      · rename_i h0
+        have : ¬ i.toNat < n := fun hh => hin ⟨h0, hh⟩
+        simp [List.getElem?_take, this]
+      · rfl
+  case h_13 k heq =>
+    -- kLoad
+    split
+    · rename_i hk
+      refine Inv.local h t _ hlk (by simp [PcInv]) (logs_cons hlg ?_)
+      simp only [ResOK]
+      exact ⟨by rw [h.len]; exact Nat.le_refl _, by simp [Spec.lookup, hk]⟩
+    · rename_i hk
+      refine Inv.local h t _ hlk ?_ hlg
+      simp only [PcInv]
+      exact ⟨Nat.le_refl _, Nat.zero_le _, hk, by simp [Spec.lookup, hk]⟩
+  case h_14 k n j heq =>
+    -- kScan
+    rw [heq] at hpc; simp only [PcInv] at hpc
+    obtain ⟨hn, hj, hk, hs⟩ := hpc
+    have hnl : n ≤ s.tbl.length := by rw [h.len]; exact hn
+    split
+    · rename_i hjn
+      obtain ⟨o, ho, hc⟩ := tbl_cell h (i := j) (by omega)
+      have hd : (s.tbl.take n).drop j = o :: (s.tbl.take n).drop (j + 1) :=
+        drop_cons_of_getElem? (by rw [List.getElem?_take]; simp [hjn, ho])
+      rw [hc]; dsimp only
+      rw [hd] at hs
+      by_cases he : (Cell.full o).keyStr = ""
+      · rw [if_pos he]
+        replace he : o.key = "" := he
+        refine Inv.local h t _ hlk (by simp [PcInv]) (logs_cons hlg ?_)
+        simp only [ResOK]
+        refine ⟨hnl, ?_⟩
+        rw [hs]; simp [Spec.scanKey, he]
+      · rw [if_neg he]
+        replace he : ¬ o.key = "" := he
+        by_cases hke : keyEq (Cell.full o).keyStr k = true
+        · rw [if_pos hke]
+          replace hke : keyEq o.key k = true := hke
+          refine Inv.local h t _ hlk (by simp [PcInv]) (logs_cons hlg ?_)
+          simp only [ResOK]
+          refine ⟨hnl, ?_⟩
+          rw [hs]; simp [Spec.scanKey, he, hke]
+        · rw [if_neg hke]
+          replace hke : ¬ keyEq o.key k = true := hke
+          refine Inv.local h t _ hlk ?_ hlg
+          unfold PcInv
+          refine ⟨hn, by omega, hk, ?_⟩
+          rw [hs]; simp [Spec.scanKey, he, hke]
+    · rename_i hjn
+      refine Inv.local h t _ hlk (by simp [PcInv]) (logs_cons hlg ?_)
+      simp only [ResOK]
+      refine ⟨hnl, ?_⟩
+      have : (s.tbl.take n).drop j = [] := by
+        apply List.drop_eq_nil_of_le; simp only [List.length_take]; omega
+      rw [hs, this]; simp [Spec.scanKey]
+  case h_5 r cnt i b l heq =>
+    -- wScan
+    rw [heq] at hpc; unfold PcInv at hpc
+    obtain ⟨hm, hc, hi, hw, hf⟩ := hpc
+    subst hc
+    split
+    · rename_i hic
+      obtain ⟨o, ho, hcell⟩ := tbl_cell h hic
+      have hbl : (if l = blockSize then b + 1 else b) = i / blockSize ∧
+          (if l = blockSize then 0 else l) = i % blockSize := by
+        unfold Walk at hw; simp only [blockSize] at hw ⊢
+        split <;> omega
+      have hcell' : cellBL s.mem (if l = blockSize then b + 1 else b) (if l = blockSize then 0 else l)
+          = some (Cell.full o) := by rw [hbl.1, hbl.2]; exact hcell
+      rw [hcell']; dsimp only
+      have hd : s.tbl.drop i = o :: s.tbl.drop (i + 1) := drop_cons_of_getElem? ho
+      rw [hd] at hf
+      by_cases hk : keyEq r.obj.key (Cell.full o).keyStr = true
+      · rw [if_pos hk]
+        replace hk : keyEq r.obj.key o.key = true := hk
+        rw [Spec.findKey_cons_true hk] at hf
+        by_cases he : eqv r.obj (Cell.full o).toObj = true
+        · rw [if_pos he]
+          replace he : eqv r.obj o = true := he
+          refine Inv.update h t _ s.mem s.count s.mutex s.tbl _ (Or.inl ⟨rfl, rfl, rfl, rfl⟩)
+            h.blocks h.nonempty h.cap h.len h.cells h.uniq hlk ?_ hlg ?_
+          · unfold PcInv; exact ⟨hm, o, ho, hk, Or.inr he⟩
+          · refine Spec.replay_snoc h.lin ?_
+            simp [Spec.register, hf, he]
+        · rw [if_neg he]
+          replace he : eqv r.obj o = false := Bool.eq_false_iff.2 he
+          refine Inv.update h t _ s.mem s.count s.mutex s.tbl _ (Or.inl ⟨rfl, rfl, rfl, rfl⟩)
+            h.blocks h.nonempty h.cap h.len h.cells h.uniq hlk ?_ hlg ?_
+          · unfold PcInv; exact ⟨hm, o, ho, hk, he⟩
+          · refine Spec.replay_snoc h.lin ?_
+            simp [Spec.register, hf, he]
+      · rw [if_neg hk]
+        replace hk : keyEq r.obj.key o.key = false := Bool.eq_false_iff.2 hk
+        rw [Spec.findKey_cons_false hk] at hf
+        refine Inv.local h t _ hlk ?_ hlg
+        unfold PcInv
+        refine ⟨hm, rfl, by omega, ?_, hf⟩
+        unfold Walk at hw ⊢; simp only [blockSize] at hw hbl ⊢
+        right
+        split <;> omega
+    · rename_i hic
+      have hic' : i = s.count := by omega
+      subst hic'
+      refine Inv.local h t _ hlk ?_ hlg
+      unfold PcInv
+      refine ⟨hm, rfl, hw, ?_⟩
+      rw [hf, List.drop_eq_nil_of_le (by rw [h.len]; exact Nat.le_refl _)]; rfl
+  case h_6 r cnt b l heq =>
+    -- wAlloc
+    rw [heq] at hpc; unfold PcInv at hpc
+    obtain ⟨hm, hc, hw, hf⟩ := hpc
+    subst hc
+    have hcap := h.cap
+    have hne := h.nonempty
+    by_cases hl : l = blockSize
+    · rw [if_pos hl]
+      have hfacts : 0 < s.count ∧ b + 1 ≤ s.mem.length ∧ blockSize * (b + 1) = s.count ∧
+          s.count / blockSize = b + 1 ∧ s.count % blockSize = 0 := by
+        unfold Walk at hw; simp only [blockSize] at hw hl hcap ⊢; omega
+      obtain ⟨hpos, hble, hbc, hdiv, hmod⟩ := hfacts
+      rw [if_neg (by omega)]
+      have htl : (s.mem.take (b + 1)).length = b + 1 := by rw [List.length_take]; omega
+      have hcells_take : ∀ (i : Nat) (o : Obj), s.tbl[i]? = some o →
+          cellAt (s.mem.take (b + 1)) i = some (Cell.full o) := by
+        intro i o ho
+        have hi : i < s.count := by rw [← h.len]; exact lt_of_getElem?_some ho
+        have : i / blockSize < b + 1 := by simp only [blockSize] at hbc ⊢; omega
+        unfold cellAt; rw [cellBL_take this]; exact h.cells i o ho
+      by_cases haf : r.allocFail = true
+      · rw [if_pos haf]
+        refine Inv.update h t _ _ s.count s.mutex s.tbl _
+          (Or.inr ⟨Or.inr hm, Or.inr hm, [], (List.append_nil _).symm⟩)
+          (h.blocks.take _) (by omega) (by rw [htl, hbc]; exact Nat.le_refl _) h.len hcells_take h.uniq hlk ?_ hlg ?_
+        · unfold PcInv; exact ⟨hm, haf⟩
+        · refine Spec.replay_snoc h.lin ?_
+          simp [Spec.register, Spec.injOf, hf]
+      · rw [if_neg haf]
+        refine Inv.update h t _ _ s.count s.mutex s.tbl s.lin
+          (Or.inr ⟨Or.inr hm, Or.inr hm, [], (List.append_nil _).symm⟩)
+          (h.blocks.take _).snoc (by simp) ?_ h.len ?_ h.uniq hlk ?_ hlg h.lin
+        · rw [List.length_append, htl]; simp only [blockSize] at hbc ⊢; simp only [List.length_cons, List.length_nil]; omega
+        · intro i o ho
+          have hi : i < s.count := by rw [← h.len]; exact lt_of_getElem?_some ho
+          have : i / blockSize < (s.mem.take (b + 1)).length := by rw [htl]; simp only [blockSize] at hbc ⊢; omega
+          unfold cellAt; rw [cellBL_append_left this]; exact hcells_take i o ho
+        · unfold PcInv
+          refine ⟨hm, rfl, hf, hdiv.symm, hmod.symm, by omega, Cell.empty, ?_, by omega, by omega⟩
+          have := cellBL_snoc_new (mem := s.mem.take (b + 1)) (l := 0) (by simp [blockSize])
+          rw [htl] at this; exact this
+    · rw [if_neg hl]
+      have hfacts : b = s.count / blockSize ∧ l = s.count % blockSize ∧ b < s.mem.length ∧ l < blockSize := by
+        unfold Walk at hw; simp only [blockSize] at hw hl hcap ⊢; omega
+      obtain ⟨hb, hl', hblt, hllt⟩ := hfacts
+      obtain ⟨c, hc⟩ := cellBL_exists h.blocks hblt hllt
+      refine Inv.local h t _ hlk ?_ hlg
+      unfold PcInv
+      exact ⟨hm, rfl, hf, hb, hl', by omega, c, hc, by omega, by omega⟩
+  case h_7 r cnt b l j heq =>
+    -- wCopy
+    rw [heq] at hpc; unfold PcInv at hpc
+    obtain ⟨hm, hc, hf, hb, hl, hj, c, hcell, hp1, hp2⟩ := hpc
+    subst hc
+    by_cases hcf : r.copyFail = some j
+    · rw [if_pos hcf]
+      refine Inv.update h t _ s.mem s.count s.mutex s.tbl _ (Or.inl ⟨rfl, rfl, rfl, rfl⟩)
+        h.blocks h.nonempty h.cap h.len h.cells h.uniq hlk ?_ hlg ?_
+      · unfold PcInv; exact ⟨hm, by simp [ResOK, hcf]⟩
+      · refine Spec.replay_snoc h.lin ?_
+        simp [Spec.register, Spec.injOf, hf]
+    · rw [if_neg hcf]
+      by_cases hj2 : j < nFields
+      · rw [if_pos hj2, hcell]; dsimp only
+        refine Inv.update h t _ _ s.count s.mutex s.tbl s.lin
+          (Or.inr ⟨Or.inr hm, Or.inr hm, [], (List.append_nil _).symm⟩)
+          (h.blocks.setBL _ _ _) (by unfold setBL; rw [List.length_modify]; exact h.nonempty)
+          (by unfold setBL; rw [List.length_modify]; exact h.cap) h.len ?_ h.uniq hlk ?_ hlg h.lin
+        · intro i o ho
+          have hi : i < s.count := by rw [← h.len]; exact lt_of_getElem?_some ho
+          unfold cellAt
+          rw [cellBL_setBL_other (by subst hb hl; simp only [blockSize]; omega)]
+          exact h.cells i o ho
+        · unfold PcInv
+          refine ⟨hm, rfl, hf, hb, hl, by omega, _, cellBL_setBL_same hcell, ?_, ?_⟩
+          · intro _
+            by_cases hj0 : j = 0
+            · simp [Cell.writeField, hj0]
+            · simp only [Cell.writeField, hj0, ↓reduceIte]; exact hp1 (by omega)
+          · intro hj1
+            have hj1' : j = 1 := by simp only [nFields] at hj2; omega
+            simp [Cell.writeField, hj1']
+      · rw [if_neg hj2]
+        have hj' : j = 2 := by simp only [nFields] at hj2 hj; omega
+        refine Inv.local h t _ hlk ?_ hlg
+        unfold PcInv
+        refine ⟨hm, rfl, hf, ?_⟩
+        unfold cellAt; rw [← hb, ← hl, hcell]
+        have e1 := hp1 (by omega)
+        have e2 := hp2 (by omega)
+        cases c; simp only at e1 e2; subst e1 e2; rfl
+  case h_8 r cnt heq =>
+    -- wPublish
+    rw [heq] at hpc; unfold PcInv at hpc
+    obtain ⟨hm, hc, hf, hcell⟩ := hpc
+    subst hc
+    have hnone := Spec.findKey_none hf
+    have hlen := h.len
+    refine Inv.update h t _ s.mem (s.count + 1) s.mutex (s.tbl ++ [r.obj]) _
+      (Or.inr ⟨Or.inr hm, Or.inr hm, [r.obj], rfl⟩)
+      h.blocks h.nonempty ?_ (by simp [hlen]) ?_ ?_ hlk ?_ (fun op res hmem => (hlg op res hmem).mono) ?_
+    · have := cellAt_some_lt hcell
+      simp only [blockSize] at this ⊢; omega
+    · intro i o ho
+      rw [List.getElem?_append] at ho
+      split at ho
+      · exact h.cells i o ho
+      · rename_i hi
+        have : i = s.count := by
+          have := lt_of_getElem?_some ho
+          simp only [List.length_cons, List.length_nil] at this; omega
+        subst this
+        rw [← hlen] at ho; simp at ho; subst ho; exact hcell
+    · intro i j oi oj hoi hoj hk
+      rw [List.getElem?_append] at hoi hoj
+      split at hoi <;> split at hoj
+      · exact h.uniq i j oi oj hoi hoj hk
+      · have hj := lt_of_getElem?_some hoj
+        simp only [List.length_cons, List.length_nil] at hj
+        have : j - s.tbl.length = 0 := by omega
+        rw [this] at hoj; simp at hoj; subst hoj
+        have := hnone i oi hoi
+        rw [keyEq_comm] at this; rw [this] at hk; cases hk
+      · have hi := lt_of_getElem?_some hoi
+        simp only [List.length_cons, List.length_nil] at hi
+        have : i - s.tbl.length = 0 := by omega
+        rw [this] at hoi; simp at hoi; subst hoi
+        have := hnone j oj hoj
+        rw [this] at hk; cases hk
+      · have hi := lt_of_getElem?_some hoi
+        have hj := lt_of_getElem?_some hoj
+        simp only [List.length_cons, List.length_nil] at hi hj
+        omega
+    · unfold PcInv
+      refine ⟨hm, r.obj, ?_, keyEq_refl _, Or.inl rfl⟩
+      rw [← hlen]; simp
+    · refine Spec.replay_snoc h.lin ?_
+      simp [Spec.register, Spec.injOf, hf, hlen]
+  case h_9 r res heq =>
+    -- wUnlock
+    rw [heq] at hpc; unfold PcInv at hpc
+    obtain ⟨hm, hres⟩ := hpc
+    have hd : 0 < (s.thr t).depth := hlk.2 hm
+    refine Inv.update h t _ s.mem s.count _ s.tbl s.lin
+      (Or.inr ⟨Or.inr hm, ?_, [], (List.append_nil _).symm⟩)
+      h.blocks h.nonempty h.cap h.len h.cells h.uniq ?_ (by simp [PcInv]) (logs_cons hlg hres) h.lin
+    · split
+      · exact Or.inl rfl
+      · exact Or.inr hm
+    · simp only
+      split
+      · rename_i h1; simp [h1]
+      · constructor
+        · intro _; exact hm
+        · intro _; omega
+
+theorem inv_init (eqv : ObjEq) (progs : Nat → List Op) : Inv eqv (init progs) := by
+  refine ⟨?_, by simp [init], by simp [init], rfl, ?_, ?_, ?_, ?_, ?_, rfl⟩
+  · intro b blk hb
+    simp only [init] at hb
+    cases b with
+    | zero => simp at hb; subst hb; exact emptyBlock_length
+    | succ b => simp at hb
+  · intro i o ho; simp [init] at ho
+  · intro i j oi oj ho; simp [init] at ho
+  · intro t; simp [init]
+  · intro t; simp [init, PcInv]
+  · intro t op res hm; simp [init] at hm
+
+theorem reachable_inv {eqv : ObjEq} {s : Sys} (h : Reachable eqv s) : Inv eqv s := by
+  induction h with
+  | init progs => exact inv_init eqv progs
+  | step t _ ih => exact inv_step ih t
+
+
+
+/-- the abstract table and the counter only ever change by a `wPublish` step that appends one object -/
+theorem step_tbl (eqv : ObjEq) (s : Sys) (t : Nat) :
+    ((step eqv s t).tbl = s.tbl ∧ (step eqv s t).count = s.count) ∨
+    (∃ r cnt, (s.thr t).pc = .wPublish r cnt ∧ (step eqv s t).tbl = s.tbl ++ [r.obj] ∧
+      (step eqv s t).count = cnt + 1) := by
+  unfold step dispatch
+  dsimp only
+  repeat' split
+  all_goals first
+    | exact Or.inl ⟨rfl, rfl⟩
+    | (rename_i heq; exact Or.inr ⟨_, _, heq, rfl, rfl⟩)
+
+def regsOf (done : List (Op × Res)) : List (RegOp × Res) :=
+  done.filterMap (fun e => match e with | (.reg r, res) => some (r, res) | _ => none)
+
+def pending : Pc → List (RegOp × Res)
+  | .wUnlock r res => [(r, res)]
+  | _ => []
+
+def linOf (lin : List LinEv) (t : Nat) : List (RegOp × Res) :=
+  (lin.filter (fun e => e.tid = t)).map (fun e => (e.op, e.res))
+
+theorem linOf_snoc_self (lin : List LinEv) (t : Nat) (r : RegOp) (res : Res) :
+    linOf (lin ++ [⟨t, r, res⟩]) t = linOf lin t ++ [(r, res)] := by
+  simp [linOf, List.filter_append]
+theorem linOf_snoc_other (lin : List LinEv) {t u : Nat} (h : u ≠ t) (r : RegOp) (res : Res) :
+    linOf (lin ++ [⟨t, r, res⟩]) u = linOf lin u := by
+  simp [linOf, List.filter_append, h.symm]
+
+/-- bookkeeping invariant: the linearisation restricted to thread `t` is exactly the sequence of
+    registration results of `t` (logged ones, then the one being returned) -/
+def LinInv (s : Sys) : Prop :=
+  ∀ t, linOf s.lin t = (regsOf (s.thr t).done).reverse ++ pending (s.thr t).pc
+
+theorem linInv_step (eqv : ObjEq) {s : Sys} (h : LinInv s) (t : Nat) : LinInv (step eqv s t) := by
+  intro u
+  have hu := h u
+  have ht := h t
+  by_cases hut : u = t
+  · subst hut
+    unfold step dispatch
+    dsimp only
+    repeat' split
+    all_goals (rename_i heq; try rw [heq] at hu)
+    all_goals simp_all [setThr, pending, regsOf, linOf_snoc_self]
+  · unfold step dispatch
+    dsimp only
+    repeat' split
+    all_goals simp_all [setThr, linOf_snoc_other]
+
+namespace Spec
+
+/-- keys are pairwise different (case-insensitively) -/
+def KeysUnique (T : List Obj) : Prop :=
+  ∀ (i j : Nat) (oi oj : Obj), T[i]? = some oi → T[j]? = some oj → keyEq oi.key oj.key = true → i = j
+
+theorem findKey_of_match {k : String} {T : List Obj} {i : Nat} {e : Obj} (hu : KeysUnique T)
+    (hi : T[i]? = some e) (hk : keyEq k e.key = true) : findKey k T 0 = some (i, e) := by
+  cases hf : findKey k T 0 with
+  | none => have := findKey_none hf i e hi; rw [this] at hk; cases hk
+  | some p =>
+    obtain ⟨i', e'⟩ := p
+    obtain ⟨_, h2, h3, _⟩ := findKey_some hf
+    simp only [Nat.sub_zero] at h2
+    have : i = i' := hu i i' e e' hi h2 (keyEq_trans (keyEq_symm hk) h3)
+    subst this
+    rw [hi] at h2; cases h2; rfl
+
+theorem register_identical {eqv : ObjEq} {T : List Obj} {o e : Obj} {i : Nat} (inj : Option Res)
+    (hu : KeysUnique T) (hi : T[i]? = some e) (hk : keyEq o.key e.key = true) (he : eqv o e = true) :
+    register eqv T o inj = (T, .slot i) := by
+  simp [register, findKey_of_match hu hi hk, he]
+
+theorem register_conflict {eqv : ObjEq} {T : List Obj} {o e : Obj} {i : Nat} (inj : Option Res)
+    (hu : KeysUnique T) (hi : T[i]? = some e) (hk : keyEq o.key e.key = true) (he : eqv o e = false) :
+    register eqv T o inj = (T, .conflict i) := by
+  simp [register, findKey_of_match hu hi hk, he]
+
+theorem register_new {eqv : ObjEq} {T : List Obj} {o : Obj}
+    (hn : ∀ (i : Nat) (e : Obj), T[i]? = some e → keyEq o.key e.key = false) :
+    register eqv T o none = (T ++ [o], .slot T.length) := by
+  simp [register, findKey_of_none_all hn]
+
+theorem register_prefix (eqv : ObjEq) (T : List Obj) (o : Obj) (inj : Option Res) :
+    ∃ x, (register eqv T o inj).1 = T ++ x := by
+  unfold register
+  split
+  · split <;> exact ⟨[], by simp⟩
+  · split
+    · exact ⟨[], by simp⟩
+    · exact ⟨[o], rfl⟩
+
+theorem register_keysUnique {eqv : ObjEq} {T : List Obj} (o : Obj) (inj : Option Res) (hu : KeysUnique T) :
+    KeysUnique (register eqv T o inj).1 := by
+  unfold register
+  split
+  · split <;> exact hu
+  · rename_i hf
+    split
+    · exact hu
+    · have hnone := findKey_none hf
+      intro i j oi oj hoi hoj hk
+      rw [List.getElem?_append] at hoi hoj
+      split at hoi <;> split at hoj
+      · exact hu i j oi oj hoi hoj hk
+      · have hj := lt_of_getElem?_some hoj
+        simp only [List.length_cons, List.length_nil] at hj
+        have : j - T.length = 0 := by omega
+        rw [this] at hoj; simp at hoj; subst hoj
+        have := hnone i oi hoi
+        rw [keyEq_comm] at this; rw [this] at hk; cases hk
+      · have hi := lt_of_getElem?_some hoi
+        simp only [List.length_cons, List.length_nil] at hi
+        have : i - T.length = 0 := by omega
+        rw [this] at hoi; simp at hoi; subst hoi
+        have := hnone j oj hoj
+        rw [this] at hk; cases hk
+      · have hi := lt_of_getElem?_some hoi
+        have hj := lt_of_getElem?_some hoj
+        simp only [List.length_cons, List.length_nil] at hi hj
+        omega
+
+theorem lookup_atSlot {T : List Obj} {k : String} {j : Nat} {o : Obj} (h : lookup T k = some (j, o)) :
+    atSlot T (j : Int) = some o ∧ keyEq o.key k = true ∧ k ≠ "" := by
+  unfold lookup at h
+  split at h
+  · cases h
+  · rename_i hk
+    obtain ⟨_, h2, h3, h4, _⟩ := scanKey_some h
+    simp only [Nat.sub_zero] at h2
+    refine ⟨?_, h3, hk⟩
+    simp [atSlot, h2, h4]
+
+theorem scanKey_of_first {k : String} : ∀ {T : List Obj} {i j : Nat} {o : Obj}, T[i]? = some o → o.key ≠ "" →
+    keyEq o.key k = true →
+    (∀ i', i' < i → ∀ (o' : Obj), T[i']? = some o' → o'.key ≠ "" ∧ keyEq o'.key k = false) →
+    scanKey k T j = some (j + i, o)
+  | [], _, _, _, h, _, _, _ => by simp at h
+  | a :: as, 0, j, o, h, hne, hk, _ => by
+    simp at h; subst h; simp [scanKey, hne, hk]
+  | a :: as, i + 1, j, o, h, hne, hk, hb => by
+    have h0 := hb 0 (by omega) a (by simp)
+    unfold scanKey
+    rw [if_neg h0.1, if_neg (by simp [h0.2])]
+    rw [scanKey_of_first (T := as) (i := i) (j := j + 1) (by simpa using h) hne hk
+      (fun i' hi' o' ho' => hb (i' + 1) (by omega) o' (by simpa using ho'))]
+    congr 2; omega
+
+theorem atSlot_lookup {T : List Obj} {j : Nat} {o : Obj} (hu : KeysUnique T)
+    (hne : ∀ (i : Nat) (e : Obj), T[i]? = some e → e.key ≠ "") (h : T[j]? = some o) :
+    lookup T o.key = some (j, o) ∧ atSlot T (j : Int) = some o := by
+  have hk := hne j o h
+  refine ⟨?_, by simp [atSlot, h, hk]⟩
+  unfold lookup
+  rw [if_neg hk]
+  have := scanKey_of_first (k := o.key) (j := 0) h hk (keyEq_refl _) (by
+    intro i' hi' o' ho'
+    refine ⟨hne i' o' ho', ?_⟩
+    cases hke : keyEq o'.key o.key with
+    | false => rfl
+    | true => have := hu i' j o' o ho' h hke; omega)
+  simpa using this
+
+end Spec
+
+theorem linInv_init (progs : Nat → List Op) : LinInv (init progs) := by
+  intro t; simp [init, linOf, regsOf, pending]
+
+theorem reachable_linInv {eqv : ObjEq} {s : Sys} (h : Reachable eqv s) : LinInv s := by
+  induction h with
+  | init progs => exact linInv_init progs
+  | step t _ ih => exact linInv_step eqv ih t
+
+theorem reachable_run {eqv : ObjEq} {s : Sys} (h : Reachable eqv s) : ∀ sched, Reachable eqv (run eqv s sched)
+  | [] => h
+  | t :: ts => reachable_run (Reachable.step t h) ts
+
 end MjProof.GlobalTable
